@@ -207,7 +207,7 @@ func (h ccHeader) storable(def time.Duration) (bool, time.Duration) {
 func runFED16(r *core.Run) {
 	const prop = "C16"
 	W := r.W
-	e := newFedEnv(r, true)
+	e := newFedEnvA(r, true, fedAbstractMode(r))
 	ctx, cancel := context.WithCancel(context.Background())
 	defer cancel()
 	engOpts := fedEngineOpts{multiFetch: W.Prob(0.15), scheduleFetches: W.Prob(0.2)}
@@ -364,7 +364,7 @@ func runFED16(r *core.Run) {
 				got = e.summarize(sl.x, nil)
 			}
 			if got.data != tw.data || got.hasErr != tw.hasErr || strings.HasPrefix(got.body, "ERR:") != strings.HasPrefix(tw.body, "ERR:") {
-				r.Fail(prop, "not-transparent", "twin", "request %d of the history differs from the same request on an engine without cache (subgraphs answer null for some entities)\noperation: %s vars=%s\nwith cache:    %s\nwithout cache: %s\n%s", i, sl.op.Query, sl.op.Vars, got.body, tw.body, e.describe())
+				r.Fail(prop, "not-transparent", "twin"+sharedKeyShape(sl.op.Query), "request %d of the history differs from the same request on an engine without cache (subgraphs answer null for some entities)\noperation: %s vars=%s\nwith cache:    %s\nwithout cache: %s\n%s", i, sl.op.Query, sl.op.Vars, got.body, tw.body, e.describe())
 			}
 		}
 	}
@@ -384,10 +384,10 @@ func runFED16(r *core.Run) {
 		s := e.summarize(sl.x, nil)
 		want := canonJSON(mustJSON(ref.Data))
 		if !s.valid || s.data != want {
-			r.Fail(prop, "not-transparent", "data", "request %d of the history returns different data with the cache than without\noperation: %s vars=%s\nwith cache: %s\nreference:  %s\n%s", i, sl.op.Query, sl.op.Vars, s.data, want, e.describe())
+			r.Fail(prop, "not-transparent", "data"+sharedKeyShape(sl.op.Query), "request %d of the history returns different data with the cache than without\noperation: %s vars=%s\nwith cache: %s\nreference:  %s\n%s", i, sl.op.Query, sl.op.Vars, s.data, want, e.describe())
 		}
 		if s.hasErr && !relaxed {
-			r.Fail(prop, "not-transparent", "errors", "request %d reports errors although neither a subgraph nor the reference failed: %s", i, s.body)
+			r.Fail(prop, "not-transparent", "errors"+sharedKeyShape(sl.op.Query), "request %d reports errors although neither a subgraph nor the reference failed: %s", i, s.body)
 		}
 	}
 	// ---- storability of everything that was written
